@@ -1,5 +1,7 @@
 //! vh — conformance harness binding the TLA+ specifications in /verif/spec to tikv/rust-prometheus.
+#![allow(dead_code, deprecated)]
 mod conc;
+mod pm;
 mod sched;
 
 fn main() {
